@@ -8,6 +8,7 @@ import Z80.Lemmas.Pc
 import Z80.Lemmas.Bus
 import Z80.Lemmas.Word
 import Z80.Lemmas.Nest
+import Z80.Lemmas.Plain
 namespace Z80
 
 /-- every non-transfer instruction: PC := address + encoded length -/
@@ -120,6 +121,15 @@ theorem C03_nest (l : List (UInt16 × UInt16)) (a : Arch) (hn : 2 * l.length ≤
     (∀ nn len rest, l = (nn, len) :: rest → s.reg.pc = a.reg.pc + len) := by
   obtain ⟨h1, h2, _, h4⟩ := nest l a hn hw
   exact ⟨h1, h2, h4⟩
+
+/-- at the level of `CPU::execute`: with nothing pending and no halt, a step of a non-transfer
+    instruction ends with PC = address + the length of the instruction encoded there -/
+theorem C03_step_sequential (c : Cpu) (hq : c.arch.quiet)
+    (ht : transfers (decode c.arch.bus c.arch.reg.pc (c.arch.bus.readByte c.arch.reg.pc)).instr = false) :
+    (step c).1.arch.reg.pc = c.arch.reg.pc + (decode c.arch.bus c.arch.reg.pc (c.arch.bus.readByte c.arch.reg.pc)).len := by
+  show (stepArch c.arch).1.reg.pc = _
+  rw [stepArch_quiet _ hq, dispatch_quiet _ hq]
+  exact exec_pc_seq _ _ _ ht
 
 /-- non-vacuity: CALL at 0xFFFE pushes 0x0001 (address arithmetic wraps) -/
 example :
